@@ -125,6 +125,7 @@ def main():
             "known_findings_met": {k: v["n"] for k, v in known_hit.items()},
             "observed": {k: obs[k] for k in sorted(obs)},
             "distinct_seen": {k: len(v) for k, v in sorted(sets.items())},
+            "distinct_seen_items": {k: sorted(v)[:60] for k, v in sorted(sets.items()) if len(v) <= 200},
             "required_observations_missing": missing,
         }
         if hasattr(mod, "extra_coverage"):
